@@ -11,7 +11,7 @@ from ..prv import Pvt, PrvError
 
 ID = "C15"
 LEVEL = "exploration"
-RUNS = {"quick": 4000, "thorough": 30000}
+RUNS = {"quick": 5000, "thorough": 30000}
 RULE = ("one seeded world (1-4 looms, 1-3 processes, 1-4 threads, ranks or not, shuffled physical ids) is written as 3-6 variants that differ "
         "only in which thread carries app_id, rank/nranks and each (possibly overlapping or repeated) slice of loom_cpus, and in directory "
         "creation order; outputs must be byte-identical across variants and rows must follow the documented order; 35% of the worlds add "
